@@ -27,3 +27,19 @@ CONTRACTS.append(Contract(
     ensures=[],
     raises={'MOFParseError': Raises()},
 ))
+
+# ---- grammar actions: p is PLY's production object (p[i] = value of the i-th symbol, by the rule in the docstring)
+PARSER = Obj('LRParser', file=Opt(Str), target_namespace=Str, verbose=Bool, qualcache=MapOf('str', ('ref', 'NocaseDict')),
+             mofcomp=Obj('MOFCompiler'), log=Ref('logfunc'))
+compile_file_c = Contract('pywbem/_mof_compiler.py::MOFCompiler.compile_file',
+                          raises={'MOFCompileError': Raises(), 'OSError': Raises()}, trusted=True,
+                          notes='assumed here (this is the property itself one level down: recursion through include files)')
+CONTRACTS.append(Contract(
+    K + 'p_compilerDirective',
+    # compilerDirective : '#' PRAGMA pragmaName '(' pragmaParameter ')'   (A-PLY: symbol kinds from the docstring)
+    params={'p': Obj('YaccProduction', __items__=TupleOf(NoneT, Str, Str, Str, Str, Str, Str), parser=PARSER)},
+    abstract_regex={r'^(?:([\w\-]+):)?(?://([\w.:@\[\]]*))?(?:/|^/?)(\w+(?:/\w+)*)$': 'nspath'},
+    callees={'compile_file': compile_file_c},
+    ensures=[('production-value-is-None', 'p[0] is None')],
+    raises={'MOFParseError': Raises(), 'MOFCompileError': Raises(), 'OSError': Raises()},
+))
